@@ -13,7 +13,7 @@ RULE = ("bounded-exhaustive: every multiset of 1..5 (thorough 6) items over 0..4
         "instance is solved by complete greedy under all 16 switch masks x {maxmin,minmax,diff}, by ckk/snp/rnp (diff), by dp "
         "(2 of 5 objectives) and, for values <= 200, by ilp (1 of 5 objectives); non-trivial = n > numbins >= 2 and LPT's value "
         "differs from the optimum of that objective; distinct on (algorithm, config, sorted values, numbins); every 10th (thorough: 4th) instance is of class manysmall: "
-        "11-13 items with values <= 15, where O1 stays cheap, solved by cg (9 configurations), snp, rnp and ckk (<= 3 bins); 25% of each shard: certificate pairs "
+        "11-13 items with values <= 15, where O1 stays cheap, solved by cg (9 configurations), snp, rnp and ckk (<= 3 bins); 30% of each shard: certificate pairs "
         "(snp vs complete greedy on 9-12 items, 4-5 bins, values <= 1000; a strictly better validated partition refutes the other)")
 ASSUMPTIONS = ["O1 enumerates all sorted sum-vectors (n <= 10)", "ilp disagreements are re-solved with CBC preprocessing off; agreement then = inconclusive(solver)",
                "rnp: numbins <= 5 (numbins >= 6 is KF-rnp-k6, no value returned)"]
@@ -226,8 +226,8 @@ def run_shard(spec, rng, ctx):
                 run_instance("grid_exhaustive", k, list(ms), rng, ctx, full_grid=True)
                 ctx.counters["grid_exhaustive_instances"] += 1
         ctx.counters["grid_exhaustive_complete_shards"] += int(complete)
-        # 25% of the budget: snp vs complete greedy beyond the exhaustive oracle's size (pruning defects of snp show at >= 4 bins and >= 9-10 items)
-        pair_end = C.now() + 0.25 * float(spec.get("budget_s", 60))
+        # 30% of the budget: snp vs complete greedy beyond the exhaustive oracle's size (pruning defects of snp show at >= 4 bins and >= 9-10 items)
+        pair_end = C.now() + 0.3 * float(spec.get("budget_s", 60))
         while C.now() < pair_end:
             k = rng.choice([4, 4, 4, 5])
             # 10 items is the sweet spot (snp ~50 ms); the thorough tier also goes to 11-12 items
